@@ -106,6 +106,40 @@ Theorem C10_expiry_exact :
 Proof. exact expiry_exact. Qed.
 Print Assumptions C10_expiry_exact.
 
+(** HISTORIES of vote periods on one keeper (votes and prevotes are submitted / overwritten between
+    EndBlocker calls): the model's observations satisfy P_hist — each step's outcome satisfies P with
+    respect to exactly the votes submitted since the last vote-period end, no vote survives a period end,
+    a prevote survives iff height < submit block + VotePeriod. *)
+Theorem C10_history_holds :
+  forall p e, wf_env e -> forall xs s,
+  P_hist p e (hs_rates s) (hs_votes s) (hs_prevotes s) (hist_obs true p e s xs).
+Proof. exact hist_holds. Qed.
+Print Assumptions C10_history_holds.
+
+Theorem C10_period_end_clears_votes :
+  forall fx p e s x s' evs,
+  hist_step fx p e s x = Some (s', evs) -> is_period_last (hp_h x) (p_vote_period p) = true ->
+  hs_votes s' = [] /\
+  hs_prevotes s' = filter (keep_prevote p (hp_h x)) (put_prevotes (hs_prevotes s) (hp_prevotes x)).
+Proof. exact period_end_clears_votes. Qed.
+Print Assumptions C10_period_end_clears_votes.
+
+(** The rates published after a vote-period end depend only on the votes of the following periods:
+    two histories that differ arbitrarily before a period end (other votes, sub-quorum periods, silent
+    validators, other stored rates) publish the same rates for the same subsequent steps. *)
+Theorem C10_price_depends_only_on_votes_of_its_period :
+  forall fx p e s1 x1 s1' ev1 s2 x2 s2' ev2 xs,
+  hist_step fx p e s1 x1 = Some (s1', ev1) -> is_period_last (hp_h x1) (p_vote_period p) = true ->
+  hist_step fx p e s2 x2 = Some (s2', ev2) -> is_period_last (hp_h x2) (p_vote_period p) = true ->
+  hist_events fx p e s1' xs = hist_events fx p e s2' xs.
+Proof. exact period_votes_only. Qed.
+Print Assumptions C10_price_depends_only_on_votes_of_its_period.
+
+Theorem C10_history_checker_sound :
+  forall p e l rs cast pvs, Pb_hist p e rs cast pvs l = true -> P_hist p e rs cast pvs l.
+Proof. exact Pb_hist_sound. Qed.
+Print Assumptions C10_history_checker_sound.
+
 (** Inside the domain the update never panics. *)
 Theorem C10_no_panic_in_domain :
   forall p st h, wf st -> domain p st h = true -> update true p st h <> Panic.
